@@ -1131,7 +1131,12 @@ def correspond(ctx):
                     "min slots and every timer's dt_heap_entry are compared entry by entry (random sequences with ties, growth past 6 "
                     "segments and shrink back to empty; all valid sequences of %d operations over 5 timers); get_slot's cell per idx vs "
                     "slot_addr; compute_missed on boundary-directed values; _dispatch_timers_run / _program / configure / resume / "
-                    "unregister / latch on random life cycles with the fired events, kernel timer calls and full state compared; the "
+                    "unregister on random life cycles with the fired events, kernel timer calls and full state (incl. the registered bit of "
+                    "du_state) compared; the latch command of that harness is a transcription of source.c:529-546 (event.c and source.c "
+                    "cannot share a translation unit): source.c's own _dispatch_source_timer_data is run in harness/c11_cfg.c "
+                    "(#include of source.c) against the model's latch at the bracketing clock readings, and source.c's own latch, "
+                    "invoke2 order and rearm rule are tied by replaying recorded runs of the whole library (harness/c11_trace.c) "
+                    "through the model, every manager pass and every _dispatch_unote_resume compared; the "
                     "library's outputs are additionally judged in Python against the property (double heap shape, count = boundaries, "
                     "never early, run fixpoint, programmed expiry = minimum, configure replaces and clears pending data); "
                     "second layer: public-API runs (dispatch_after, timer sources on uptime / monotonic / wall clocks, suspend-resume "
